@@ -113,8 +113,8 @@ CHECKS = {
              "Oracle: height x width x components model with independently written interlace permutations. "
              "8 000 (quick) / 200 000 (thorough) histories.",
         note="Trusts the array model; writes use stride 1 (the property speaks of region writes); old-style (DFR8) RLE "
-             "images are read but not rewritten, and whole-chunk calls are not mixed with region calls on one image "
-             "in one session (two known findings, stored replays).",
+             "images are read, and rewritten with one colour only (known finding: a longer RLE stream cannot replace the "
+             "stored one; the refusal is reported since fix 293cb57).",
         tech=TECH % ("", "oracle = pixel-array reference model"),
     ),
     "C10": dict(
@@ -187,9 +187,10 @@ CHECKS = {
              "fault-free run. Exhaustive per program, sampled over programs (88 quick / 1200 thorough).",
         note="Single faults plus their sticky/ENOSPC continuation; allocation failure not injected; after the first "
              "reported failure a program only releases and closes, and the torn file is not opened again. The SD "
-             "family joined the search after library fixes (DESIGN 8.5); datasets and images stored through the "
-             "coders, chunked+compressed or external are created with the plain layouts in this search (two guards, "
-             "four known findings with stored replays).",
+             "family joined the search after library fixes (DESIGN 8.5), and so did datasets stored through the "
+             "coders, chunked+compressed or in external files (five more fixes); raster images with a special layout, "
+             "attribute or palette are created plain in this search (one guard, one known finding: GRstart swallows "
+             "read errors while it builds its image list).",
         tech=TECH % (", fault plans", "exhaustive single-fault enumeration over the recorded I/O trace, differential oracle against the fault-free run"),
     ),
     "C17": dict(
